@@ -90,7 +90,7 @@ def replay_violation(pid, cell, result, failed, path, scratch):
     trace = failed.get("trace") or []
     if failed.get("static"):
         out.append("supporting static fact violated (no verifier trace): %s" % failed.get("description"))
-    inputs = cbmc_run.trace_inputs(trace) if trace else {}
+    inputs = cbmc_run.trace_inputs(trace, extra=getattr(cell, 'trace_extra', ()) if cell is not None else ()) if trace else {}
     if inputs:
         out.append("counterexample inputs (harness variables in_*, bit patterns):")
         for k, v in sorted(inputs.items()):
